@@ -107,6 +107,9 @@ func (s *Source) place() {
 	s.Total, s.TotalOK = pos, ok
 }
 
+// Replace recomputes positions after the chunk list was edited.
+func (s *Source) Replace() { s.place() }
+
 // Describe renders the stream for evidence and diagnostics.
 func (s *Source) Describe() string {
 	var sb strings.Builder
@@ -333,6 +336,9 @@ func (k *composer) srcBits(pos lin.Form, n int) (bitdom.Vec, *lin.Form, bool) {
 		if !d.IsConst() {
 			d = k.c.IP.SimplifyForm(d, k.st)
 		}
+		if !d.IsConst() && k.guided {
+			d = k.st.SolveEqualities(d)
+		}
 		if !d.IsConst() || d.C < 0 || d.C >= int64(ch.W) {
 			continue
 		}
@@ -359,6 +365,9 @@ func (k *composer) chunkAt(pos lin.Form) *Chunk {
 			continue
 		}
 		d := k.c.IP.SimplifyForm(pos.Sub(ch.Pos), k.st)
+		if !d.IsConst() && k.guided {
+			d = k.st.SolveEqualities(d)
+		}
 		if d.IsConst() && d.C == 0 {
 			if w, ok := ch.widthBits(); ok && w.IsConst() && w.C == 0 {
 				continue // empty chunk
@@ -945,6 +954,10 @@ type ComposeOpts struct {
 	Consumed *lin.Form
 	// Start: initial cursor of the parser (bytes).
 	Start int64
+	// Preds: boolean facts about the parser's other parameters (e.g. "nil:$s": true).
+	Preds map[string]bool
+	// ExactLen: the iterator holds exactly the emitted bytes (not a longer buffer).
+	ExactLen bool
 	// Params: integer parameters of the parser given by its caller (name without $ -> value).
 	Params map[string]lin.Form
 }
@@ -982,9 +995,21 @@ func (k *composer) compare(res *Composition, t types.Type, pv pathint.Val, exp s
 			}
 			for i := 0; i < st.NumFields(); i++ {
 				f := st.Field(i)
-				cell, ok := k.po.Mem[joinKey(pv.O.ID, joinKey(pv.Sym, f.Name()))]
+				ckey := joinKey(pv.O.ID, joinKey(pv.Sym, f.Name()))
+				cell, ok := k.po.Mem[ckey]
 				if !ok {
-					cell = zeroOf(f.Type())
+					if _, isSt := f.Type().Underlying().(*types.Struct); isSt {
+						// a struct stored by value is kept as its leaf cells
+						sub := map[string]pathint.Val{}
+						for mk, mv := range k.po.Mem {
+							if strings.HasPrefix(mk, ckey+".") {
+								sub[mk[len(ckey)+1:]] = mv
+							}
+						}
+						cell = pathint.Val{K: pathint.KStruct, Fields: sub}
+					} else {
+						cell = zeroOf(f.Type())
+					}
 				}
 				k.compare(res, f.Type(), cell, fieldName(exp, true, f.Name()), isPtr(f.Type()), joinKey(path, f.Name()), cond, opts)
 			}
